@@ -18,3 +18,7 @@ check('C15', 'runtime monitor: reference-model oracle (scalar arithmetic/orderin
       'Held on every evaluation executed: all ordered pairs of a 48-value (quick) / 107-value (thorough) corpus under 14 binary operators in variable and literal form, all unary operators, repetition with bool/float/null counts, sampled triples for transitivity and ring laws. NaN/inf excluded.',
       'The model is Python arithmetic gated by the kinds the statement allows; and/or follow their docstrings.',
       'DESIGN.md 2/C15')
+check('C17', 'runtime monitor: reference-model oracle (flattened-layers model of plain/multi/linked contexts) compared with the real context objects on the full read matrix after every step of random operation histories',
+      'Held on every step executed: random forests of up to 9 contexts mixing Context, MultiContext and LinkedContext and 30-40 step histories of set/delete/child/register(exclusive)/delete_function; after each step every read (ctx[name], name in ctx, keys, get_functions, collect_functions, fd in ctx) on every context is compared.',
+      'Deletions with partial effect and removal of exclusively registered names are not generated (unspecified by the statement).',
+      'DESIGN.md 2/C17')
